@@ -348,7 +348,11 @@ func (tc *typechecker) typeof(expr ast.Expression, typeExpected bool) *typeInfo 
 			}
 			if t.IsConstant() {
 				ti.Constant, _ = t.Constant.unaryOp(ast.OperatorXor, t.Type)
+				if c, ok := ti.Constant.(intConst); ok && c.overflow() {
+					panic(tc.errorf(expr, "constant bitwise complement overflow"))
+				}
 			}
+
 		case ast.OperatorReceive:
 			if t.Nil() {
 				panic(tc.errorf(expr, "use of untyped nil"))
